@@ -260,7 +260,14 @@ def read_only(ctx):
                     ctx.violation('firrtl-changes-behaviour', 'output_to_firrtl\'s in-place rewrites changed Output %s at cycle %d: %d -> %d' % mm,
                                   dict(replay, call='output_to_firrtl'))
                 after_dv = real_trace(b2)
-                if not mm and before_dv is not None and after_dv is not None and ncyc is None and before_dv != after_dv:
+                # (with several write ports on one memory a non-zero default can make two enabled ports meet on one address,
+                # which the conflict-free run above does not show: those designs are compared under the default 0 only)
+                wr_ports = {}
+                for n_ in b2.logic_subset('@'):
+                    wr_ports[n_.op_param[1]] = wr_ports.get(n_.op_param[1], 0) + 1
+                if any(c_ > 1 for c_ in wr_ports.values()):
+                    ctx.count('firrtl-default_value-compare', 'skipped: several write ports')
+                elif not mm and before_dv is not None and after_dv is not None and ncyc is None and before_dv != after_dv:
                     o = [x for x in outs if before_dv[x] != after_dv[x]][0]
                     ctx.violation('firrtl-changes-behaviour:default_value', 'after output_to_firrtl, Simulation(default_value=%d) gives Output %s = %r, '
                                   'before the export %r' % (dv, o, after_dv[o], before_dv[o]), dict(replay, call='output_to_firrtl', default_value=dv))
